@@ -207,6 +207,23 @@ def templates():
     out.append([LOG, ("set", "b", ("block", [mark(1), I(1), ("s", "last")])), ("set", "e", ("block", [])),
                 ("set", "l", ("for", "k", ("post", "iter", ("array", [I(1)])), ("block", [I(5)]))),
                 ("set", "w", ("while", ("bin", "lt", I(1), I(0)), ("block", [I(5)]))), ("tuple", [V("b"), V("e"), V("l"), V("w")])])
+    # bodies written WITHOUT braces: `while c stmt`, `loop stmt`, `for x in it stmt`, `v => expr,`, `if c a else b`
+    B = lambda e: ("bare", e)
+    out.append([LOG, idu(U), ("set", "i", ("mut", INT, I(0))), ("while", ("bin", "lt", ("pre", "deref", V("i")), I(3)), B(("assign", "add", V("i"), I(1)))), ("pre", "deref", V("i"))])
+    out.append([LOG, idu(U), ("set", "i", ("mut", INT, I(0))), ("loop", B(("if", ("bin", "ge", ("assign", "add", V("i"), I(1)), I(3)), B(("break",)), B(mark(1))))), ("tuple", [("pre", "deref", V("i")), ("pre", "deref", V("log"))])])
+    out.append([LOG, idu(U), ("set", "n", ("mut", INT, I(0))), ("for", "x", ("post", "iter", ("array", [I(1), I(2), I(3)])), B(("assign", "add", V("n"), V("x")))), ("pre", "deref", V("n"))])
+    for x in (1, 2, 5):
+        out.append([LOG, idu(U), ("set", "r", ("match", ("call", V("idu"), [I(x)]), [("val", [I(1)], B(("s", "one"))), ("val", [I(2), I(3)], B(("bin", "add", ("s", "t"), ("s", "wo")))), ("other", B(("s", "other")))])),
+                    ("set", "q", ("match", I(x), [("val", [I(1)], B(I(10))), ("ty", "k", INT, B(("bin", "mul", V("k"), I(2))))])), ("tuple", [V("r"), V("q")])])
+        out.append([LOG, idu(U), ("fndecl", "f", [("v", INT)], INT, [("for", "k", ("post", "iter", ("array", [I(1), I(2), I(5)])), B(("if", ("bin", "eq", V("k"), V("v")), B(("return", ("bin", "mul", V("k"), I(10)))), None))), ("return", I(-1))]),
+                    ("call", V("f"), [I(x)])])
+    # `else if` chains written directly (the else branch is the next `if`, no braces), with and without a last `else`
+    for x in (1, 2, 3):
+        chain = ("if", ("bin", "eq", ("call", V("idu"), [I(x)]), I(1)), ("block", [mark(1), ("s", "a")]),
+                 B(("if", ("bin", "eq", ("call", V("idu"), [I(x)]), I(2)), ("block", [mark(2), ("s", "b")]), ("block", [mark(3), ("s", "c")]))))
+        open_chain = ("if", ("bin", "eq", ("call", V("idu"), [I(x)]), I(1)), ("block", [mark(1), ("s", "a")]),
+                      B(("if", ("bin", "eq", ("call", V("idu"), [I(x)]), I(2)), ("block", [mark(2), ("s", "b")]), None)))
+        out.append([LOG, idu(U), ("set", "r", chain), ("set", "q", open_chain), ("tuple", [V("r"), V("q"), ("pre", "deref", V("log"))])])
     # the default arm is an arm like any other: written above another arm it wins (arms are tried top to bottom)
     for x in (1, 2, 3):
         m1 = ("match", ("call", V("idu"), [I(x)]), [("val", [I(1)], ("block", [mark(1), ("s", "one")])), ("other", ("block", [mark(2), ("s", "default")])),
